@@ -56,6 +56,7 @@ def run_history(ctx, comps, ops, replay, stop_sig=None):
     added_ever = set()
     executed = []
     snaps = []
+    solves = []
     mapcount = 0
 
     def fail(sig, msg):
@@ -151,7 +152,10 @@ def run_history(ctx, comps, ops, replay, stop_sig=None):
                 if any(t not in spec.free() for t in spec.mapping.values()):
                     continue                    # a stale exposure is connected: outside the property's histories
                 executed.append(op)
+                real.last_solve = None
                 ok, msg = wiring.solve_and_compare(real, spec)
+                if ok and real.last_solve is not None:
+                    solves.append((len(executed) - 1,) + real.last_solve)
                 if not ok:
                     return fail("C07:solve-differs" if "differs" in msg else "C07:solve-raised", msg)
         except Exception as e:  # noqa
@@ -172,6 +176,7 @@ def run_history(ctx, comps, ops, replay, stop_sig=None):
     if ctx._driver is not None or stop_sig is None:
         try:
             wiring.model_compare(ctx, comps, executed, snaps, "C07.model.wiring", dict(replay, executed=executed))
+            wiring.model_solve_compare(ctx, comps, executed, solves, "C07.model.wiring-solve", dict(replay, executed=executed))
         except Exception as e:  # noqa
             ctx.disagreement("C07.model.wiring", f"model comparison failed: {type(e).__name__}: {e}", replay)
     return None
